@@ -163,9 +163,12 @@ func ModelApply(m Model, o Op) (Outcome, Model) {
 	switch o.Kind {
 	case Truncate:
 		n := m.Clone()
+		ms := strings.Split(o.Method, ",")
 		for kk := range n {
-			if o.Method == "" || kk.Method == o.Method {
-				delete(n, kk)
+			for _, m := range ms {
+				if o.Method == "" || kk.Method == m {
+					delete(n, kk)
+				}
 			}
 		}
 		return Outcome{}, n
@@ -359,7 +362,7 @@ func truncate(txn *fox.Txn, o Op) error {
 	if o.Method == "" {
 		return txn.Truncate()
 	}
-	return txn.Truncate(o.Method)
+	return txn.Truncate(strings.Split(o.Method, ",")...)
 }
 
 // Replay applies ops on a fresh router.
@@ -419,6 +422,10 @@ func (p *Pool) Ops(withBad bool) []Op {
 			out = append(out, Op{Kind: Truncate, Mode: mode})
 			for _, m := range p.Methods {
 				out = append(out, Op{Kind: Truncate, Method: m, Mode: mode})
+				// several methods in one call, in both orders, and the same method twice
+				for _, m2 := range p.Methods {
+					out = append(out, Op{Kind: Truncate, Method: m + "," + m2, Mode: mode})
+				}
 			}
 		}
 	}
